@@ -10,7 +10,58 @@ def http_class(o):
     return (v["status"], v["body"].strip())
 
 
+CTS = ["", "application/json", "application/json; charset=utf-8", "application/json;", "application/json-patch+json", "application/jsonl",
+       "application/json5", "application/json-seq", "Application/JSON", "APPLICATION/JSON; charset=utf-8", "application/json; charset", " application/json",
+       "application/jso", "text/plain", "application/x-www-form-urlencoded", "application/xml", "text/json", "application/vnd.api+json"]
+
+
+def binding(ck, tier, seed):
+    """request body binding: every (method, Content-Type, body class) decided by ReqBind.tla, sent to both servers"""
+    import os
+    kw = {"Methods": {"GET", "POST", "PUT", "PATCH", "DELETE"}, "ContentTypes": set(CTS), "Bodies": {"none", "object", "array", "scalar", "string", "malformed", "empty", "null"},
+          "Deviations": set()}
+    cases = []
+    r = vf.tlc("lang", "ReqBind", kw, invariants=["EngineBlind", "OnlyAnnouncedObjects", "EmitInv"], case_sink=cases.append, timeout=900)
+    ck.expect_model_ok("request-binding", r)
+    ck.add_model("request-binding", r)
+    rr = vf.tlc("lang", "ReqBind", dict(kw, Deviations={"CompiledIgnoresDeleteBody"}), invariants=["EngineBlind"], timeout=600, want_cases=False)
+    if rr.ok:
+        raise vf.InfraError("ReqBind does not see the DELETE deviation")
+    for i, c in enumerate(cases):
+        c["id"] = i
+    work = vf.scratch("verif-c02-")
+    path = os.path.join(work, "rb.ndjson")
+    vf.write_ndjson(path, cases)
+    rc, txt = vf.go_test("cmd/glyph", ["harness_test.go", "reqbind_test.go"], run="TestVerifReqBind$", env={"VERIF_CASES": path, "VERIF_OUT": path + ".out"}, timeout=1800)
+    res = vf.read_ndjson(path + ".out")
+    summ = [x for x in res if x.get("summary")]
+    if not summ or summ[0]["cases"] != len(cases):
+        raise vf.InfraError("request-binding driver failed rc=%s\n%s" % (rc, txt[-2500:]))
+    seen = set()
+    for o in res:
+        if o.get("summary"):
+            continue
+        c = cases[o["id"]]
+        ck.cov["evaluations"] += 2
+        for mode in ("compiled", "interpreted"):
+            got = o[mode]["input"]
+            if got not in c["input"]:
+                sig = "binding/%s/%s/%s-body/%s" % (mode, c["req"]["m"], c["req"]["b"], "content-type-" + ("json" if "object" in c["input"] or "emptyobject" in c["input"] else "other"))
+                if sig not in seen:
+                    seen.add(sig)
+                    ck.mismatch(sig, {"request": c["req"], "definition": c["input"], mode: o[mode], "other": o["interpreted" if mode == "compiled" else "compiled"]},
+                                replay={"kind": "reqbind", "req": c["req"]})
+        if o["compiled"]["input"] != o["interpreted"]["input"] or o["compiled"]["status"] != o["interpreted"]["status"]:
+            sig = "binding/modes-differ/%s/%s-body" % (c["req"]["m"], c["req"]["b"])
+            if sig not in seen:
+                seen.add(sig)
+                ck.mismatch(sig, {"request": c["req"], "compiled": o["compiled"], "interpreted": o["interpreted"]}, replay={"kind": "reqbind", "req": c["req"]})
+    ck.cov["traces_validated_against_impl"] += len(cases)
+    ck.cov["distinct_nontrivial"] += len(cases)
+
+
 def run(ck, tier, seed):
+    binding(ck, tier, seed)
     progs, cases, casesA, obs, _, r1, r2 = langrun.pipeline(tier, seed)
     ck.assumptions += c01.ASSUME + [
         "domain: programs both engines accept - a program the compiler rejects with a semantic error (a name declared twice in one block) is outside it",
@@ -47,6 +98,8 @@ def run(ck, tier, seed):
                 pinned.append((p, c, vmo, m))      # explained by the pinned departures: attributed below
             else:
                 sig = "vm/%s/%s" % (tag, m2.split(",")[0][:40])
+                if p["tags"][0] == "match":      # compiled match expressions: identified by the table program
+                    sig = "vm-match/" + "/".join(p["tags"][1:3]) + ("" if not p["vars"] else "/in=" + ",".join(langrun.show(v["v"]) for v in p["vars"]))
                 if sig not in seen:
                     seen.add(sig)
                     ck.mismatch(sig, {"src": c["src"], "vars": p["vars"], "definition": c["out"], "vm": vmo, "what": m2}, replay={"kind": "lang", "prog": p})
